@@ -363,6 +363,16 @@ def _job(job):
     for key, note in scope_problems(doc, hblocks):
         out["fails"].append((key, dict(base_case, case="scope"), note))
     cases = smallgen.sample(case_strategy(names_by_lang, decl_blocks), seed_value, ncases) if hblocks else []
+    # every block of the library at once, each with a body of its own, through splicer_code and through one splicer
+    # file per language (a few drawn blocks per case leave rarely generated block names - destructors, type
+    # tables, class-level blocks - unvisited for a given way of supplying them)
+    if hblocks:
+        for way in ("code", "cmdfile"):
+            recs = []
+            for k, (lang, nm) in enumerate(sorted(hblocks)):
+                b = ["call vf_user_%d(%d)" % (k, k), "  continue"] if lang == "f" else ["vf_user_%d(%d);" % (k, k), "  /* %s */" % way]
+                recs.append(dict(lang=lang, name=nm, way=way, body=b, mindent=0))
+            cases.append(dict(supplied=recs, junk=[]))
     # a declaration-level Fortran splicer on a function that needs no Fortran wrapper otherwise: the code must
     # still appear (input.rst: "A splicer can be added after the decl line. This splicer takes priority")
     forced = forced_f_cases(doc, hblocks, seed_value)
